@@ -260,7 +260,12 @@ func init() {
 		Level:       "model_checking",
 		Rule:        "insert sequences over an 8-point alphabet (several periods of one key with a gap, collisions, a point older and one newer than stored data, a second key) and over a 6-point keyed alphabet (three keys × two periods, so that flushes merge files holding several keys absent from the memstore) × every flush/restart schedule (after each insert: nothing, FlushAll, clean restart, both) × schemas {t1, tp with PERCENTILE and SHIFT fields} × MaxMemoryRatio {0, 0.9 (sorted forced flush)}; plus 11 and 21 single-datum flushes (crossing the truncating 10th flush); 17/12 field-subset queries each; oracle: identical rows to the no-flush schedule and to the reference model, disk-only == mem-inclusive right after each flush; every schedule with >=1 flush/restart is non-trivial",
 		Assumptions: []string{"timed flushes are explored as the forced-flush actor message (same code path apart from allowSort)", "PERCENTILE and SHIFT fields are compared schedule-vs-schedule only"},
-		Shards:      func(tier string) int { return 16 },
+		Shards: func(tier string) int {
+			if tier == "thorough" {
+				return 64 // short-lived workers: every closed zenodb instance leaves goroutines and buffers behind
+			}
+			return 16
+		},
 		Budget: func(tier string) time.Duration {
 			if tier == "thorough" {
 				return 45 * time.Minute
